@@ -94,6 +94,13 @@ def run(shard):
         except Exception as e:
             viol("from_line_mapping raises", "%s: %s on table %s" % (type(e).__name__, e, H.short(list(table), 300)))
             return
+        try:
+            again = _line_mapping.from_line_mapping(m)
+        except Exception as e:
+            again = "raised %s: %s" % (type(e).__name__, e)
+        if again != back:
+            viol("re-encoding the same decoded mapping a second time gives a different table",
+                 "first %s second %s" % (H.short(list(back), 200), H.short(list(again) if isinstance(again, bytes) else again, 200)))
         if back != table:
             stage = localise(code, table)
             i = 0
